@@ -555,6 +555,19 @@ Theorem C07_flipped_set_lattice_error :
   (existsb (fun k => nth k fl false) (seq 0 6) = true -> hexLatticeBaseVectors RS surfs = Err ELattice).
 Proof. exact flipped_set_lattice_error. Qed.
 
+(* ANY plane list whatever (planes that carry no hexagon, random planes, ...):
+   the complete list of outcomes of hexLatticeBaseVectors — base vectors (two for
+   six planes, three for eight), AssertionError exactly when there are neither
+   six nor eight planes, ZeroDivisionError, LatticeError, or the endless loop;
+   nothing else (no StopIteration from next(...), no IndexError) *)
+Theorem C07_base_vectors_outcomes : forall surfs : list rsurf,
+  (exists vs, hexLatticeBaseVectors RS surfs = Ok vs /\ List.length vs = (List.length surfs / 2 - 1)%nat) \/
+  (hexLatticeBaseVectors RS surfs = Err EAssert /\ List.length surfs <> 6%nat /\ List.length surfs <> 8%nat) \/
+  ((List.length surfs = 6%nat \/ List.length surfs = 8%nat) /\
+   (hexLatticeBaseVectors RS surfs = Err EZeroDiv \/ hexLatticeBaseVectors RS surfs = Err ELattice \/
+    hexLatticeBaseVectors RS surfs = Err ELoop)).
+Proof. exact base_vectors_outcomes. Qed.
+
 (* ---------- link with C04 (coordinate transformations) ---------- *)
 
 (* A hexagonal prism under TRCL / a TRn on its plane cards.  moved_surfs o b is
@@ -611,8 +624,8 @@ Print Assumptions C07_family_base_vectors.
 
 (* error behaviour outside the family of the main theorem *)
 Theorem C07_family_errors :
-  ltac:(let t := type of (conj C07_base_vectors_wrong_count (conj C07_intersection_error_iff (conj C07_sort_sides_outcomes (conj C07_base_vectors_parallel_planes (conj C07_collinear_sides_parallel (conj C07_caps_parallel_to_axis (conj C07_flipped_sense_lattice_error C07_flipped_set_lattice_error))))))) in exact t).
-Proof. exact (conj C07_base_vectors_wrong_count (conj C07_intersection_error_iff (conj C07_sort_sides_outcomes (conj C07_base_vectors_parallel_planes (conj C07_collinear_sides_parallel (conj C07_caps_parallel_to_axis (conj C07_flipped_sense_lattice_error C07_flipped_set_lattice_error))))))). Qed.
+  ltac:(let t := type of (conj C07_base_vectors_wrong_count (conj C07_intersection_error_iff (conj C07_sort_sides_outcomes (conj C07_base_vectors_parallel_planes (conj C07_collinear_sides_parallel (conj C07_caps_parallel_to_axis (conj C07_flipped_sense_lattice_error (conj C07_flipped_set_lattice_error C07_base_vectors_outcomes)))))))) in exact t).
+Proof. exact (conj C07_base_vectors_wrong_count (conj C07_intersection_error_iff (conj C07_sort_sides_outcomes (conj C07_base_vectors_parallel_planes (conj C07_collinear_sides_parallel (conj C07_caps_parallel_to_axis (conj C07_flipped_sense_lattice_error (conj C07_flipped_set_lattice_error C07_base_vectors_outcomes)))))))). Qed.
 Print Assumptions C07_family_errors.
 
 (* statements that import another property (C06: develop_lattice; C03: rhp) *)
